@@ -9,7 +9,8 @@ import (
 // Gen produces structured, mostly valid inputs.  Every random choice comes from
 // one PRNG so that a (seed, case index) pair replays exactly.
 type Gen struct {
-	R *rand.Rand
+	R         *rand.Rand
+	bigMerges int // BigMerge cycles through its three variants
 }
 
 func NewGen(seed int64) *Gen { return &Gen{R: rand.New(rand.NewSource(seed))} }
